@@ -233,6 +233,8 @@ def e2e_cases(chk):
         dict(w=128, h=72, n=20, content=0, **{"cfg.enc_mode": 8, "cfg.enable_overlays": 1, "cfg.tf_level": 1}),
         # extreme contents
         dict(w=128, h=64, n=17, content=3, **{"cfg.enc_mode": 8, "cfg.qp": 63}),
+        # caller layout: every plane with its own stride (cb_stride != cr_stride), random bytes in the stride padding
+        dict(w=130, h=66, n=6, content=4, stride_extra=8, cr_extra=32, padfill=-1, **{"cfg.enc_mode": 8}),
         # recon_enabled = 0 (the library default: nobody asks for the reconstruction) ...
         dict(w=128, h=64, n=20, content=4, recon=0, **{"cfg.enc_mode": 8}),                                   # restoration off at this preset
         dict(w=136, h=72, n=17, content=4, recon=0, **{"cfg.enc_mode": 4, "cfg.hierarchical_levels": 3}),      # restoration on
@@ -263,6 +265,9 @@ def e2e_cases(chk):
             a["cfg.qp"] = r.range(5, 63)
         if r.chance(1, 6):
             a["stride_extra"] = 2 * r.range(1, 20)
+            a["padfill"] = -1
+        if r.chance(1, 5):
+            a["cr_extra"] = 2 * r.range(1, 24)      # cb_stride != cr_stride (the statistics are measured against the library's private copy)
             a["padfill"] = -1
         if r.chance(1, 6):
             a["pts_base"] = r.range(1, 1000)
